@@ -103,6 +103,14 @@ def run(ctx):
                                                            hexs("$R/cwd"), ia, ("\t" + srcs) if srcs else ""))
     ri = ctx.impl(ilines)
     ri2 = ctx.impl(ilines)                     # second, independent processes
+    # recompiling over a longer stale output must give exactly the same file (no stale tail)
+    ok_idx = [i for i, c in enumerate(cases) if c[4].startswith("OK ")][: (150 if ctx.tier == "quick" else 2000)]
+    rs = ctx.impl([ilines[i].replace("compile\t", "compile_stale\t", 1) for i in ok_idx])
+    for i, r in zip(ok_idx, rs):
+        if r != ri[i]:
+            ctx.fail("compiling over an existing longer output file does not leave exactly header + returned text",
+                     ilines[i].replace("compile\t", "compile_stale\t", 1), {"fresh": ri[i][:300], "over_stale": r[:300]})
+    ctx.notes["stale_output_cases"] = len(ok_idx)
     rm = ctx.model(mlines)
     sc = ctx.corr_scopes.setdefault("compile_json vs compile_json_m (return, path, bytes, stdout)", {"cases": 0, "disagreements": 0})
     panics = 0
